@@ -18,15 +18,18 @@ Case = {"cfg": "graph"|"ds"|"cg"|"ro", "method": "GET"|"POST"|"POST_FORM", "fmt"
 Terms are small integers (vocabulary below); graph names 90…; 0 = the default graph / "no graph named";
 None in a pattern = wildcard; `remove` with g None = no context given (every graph).
 
-Observation per op: "<result> ; <endpoint quads> | <endpoint graph names>" — the API result and what the
-BACKING dataset really contains afterwards; compared with the Lean model (lean/RV/C20).
+Observation per op: "<result> ; <endpoint quads> | <endpoint graph names> ; SENT <requests>" — the API result, what the
+BACKING dataset really contains afterwards, and every request text the endpoint received for the op DECODED by the
+Lean reader (lean/RV/C20/Text.lean); compared with the Lean model (state machine + predicted requests).
 Property oracle (independent of Lean), see `run_impl`: a local mirror driven by the same calls must equal
 the backing dataset at every commit boundary (autocommit: after every write), uncommitted writes are
 invisible until commit / the next non-dirty read, rollback discards exactly them, every read returns
 exactly what the backing dataset holds for that graph, terms come back unchanged, and every request used
 the configured HTTP method / result format.
 """
+import os
 import re
+import sys
 import warnings
 
 import core  # noqa: F401
@@ -40,7 +43,7 @@ warnings.filterwarnings("ignore", category=DeprecationWarning)
 warnings.filterwarnings("ignore", category=UserWarning)
 
 ID = "C20"
-LEAN_TARGETS = ["RV.C20.Props", "RV.C20.Audit"]
+LEAN_TARGETS = ["RV.C20.Props", "RV.C20.TextProps", "RV.C20.Audit"]
 AUDIT = "RV/C20/Audit.lean"
 DRIVER = "drv_c20"
 CASES = {"quick": 600, "thorough": 12000, "search": 4000}
@@ -61,7 +64,7 @@ ASSUMPTIONS = [
     "object of ANOTHER store as fourth element is by design copied into the dataset and is not driven",
 ]
 TRUSTED = ["harness/c20.py generators, canonicalisation and the mapping of Graph/Dataset/ConjunctiveGraph calls to "
-           "store-level contexts", "harness/c20_endpoint.py (loop-back endpoint)", "lean/RV/C20/Drive.lean line protocol",
+           "store-level contexts", "the reader of lean/RV/C20/Text.lean as the meaning of the SPARQL fragment the store emits", "harness/c20_endpoint.py (loop-back endpoint)", "lean/RV/C20/Drive.lean line protocol",
            "HTTP transport itself (sockets, status codes, time-outs) is not modelled"]
 
 E = "http://e/"
@@ -89,6 +92,17 @@ SUBJ_IDS = list(IRIS)
 PRED_IDS = list(PREDS)
 OBJ_IDS = list(LITS) + list(IRIS)
 UNKNOWN = 7777
+
+
+def TABLES():
+    """lean/RV/C20/Tables.lean, regenerated from the live rdflib source on every run"""
+    import rdflib.term as T
+    chars = ", ".join(f"Char.ofNat {ord(c)}" for c in T._invalid_uri_chars)
+    return ("/- GENERATED by harness/c20.py TABLES() from the live rdflib modules — do not edit. -/\n"
+            "namespace RV.C20.Tables\n\n"
+            "/-- `rdflib.term._invalid_uri_chars`: `URIRef.n3()` raises when one of them occurs -/\n"
+            f"def invalidUriChars : List Char := [{chars}]\n\n"
+            "end RV.C20.Tables\n")
 
 
 def tkey(t):
@@ -317,10 +331,38 @@ def _g(x):
     return "-" if x == 0 else str(x)
 
 
+def _cps(text):
+    return "_" if text == "" else ",".join(str(ord(c)) for c in text)
+
+
+def vocab_lines():
+    """the vocabulary as text, for the Lean writers / reader (blank nodes never reach a request text)"""
+    out = []
+    for k, t in TERM.items():
+        if isinstance(t, BNode):
+            continue
+        if isinstance(t, Literal):
+            dt = "-" if t.datatype is None else _cps(str(t.datatype))
+            lg = "-" if t.language is None else _cps(t.language)
+            out.append(f"vocab {k} L {_cps(str(t))} {dt} {lg}")
+        else:
+            out.append(f"vocab {k} I {_cps(str(t))}")
+    for k, g in GNAME.items():
+        out.append(f"gvocab {k} {_cps(str(g))}")
+    return out
+
+
+VOCAB_LINES = None
+
+
 def model_lines(case):
+    global VOCAB_LINES
+    if VOCAB_LINES is None:
+        VOCAB_LINES = vocab_lines()
     cfg = case["cfg"]
     ro = cfg == "ro"
-    lines = [f"reset {int(case['autocommit'])} {int(case['dirty'])} {int(case['hook'])} {int(ro)}"]
+    lines = list(VOCAB_LINES)
+    lines.append(f"reset {int(case['autocommit'])} {int(case['dirty'])} {int(case['hook'])} {int(ro)}")
     for q in case["init"]:
         lines.append("init " + " ".join(str(x) for x in q[:3]) + " " + _g(q[3]))
     for g in case.get("ginit", []):
@@ -371,17 +413,66 @@ def model_lines(case):
             else:
                 lines.append("namedquads")
         elif k == "slice":
-            lines.append("opaque")
+            lines.append(f"slice {_w(op[1])} {_w(op[2])} {_w(op[3])} {_g(op[4])} "
+                         f"{'-' if op[5] is None else op[5]} {'-' if op[6] is None else op[6]}")
         else:
             lines.append("unknown-op")
         lines.append("obs")
+        lines.append("sent")
+        lines.append("senttext")
     return lines
 
 
-def select_model_obs(case, out):
-    n0 = 1 + len(case["init"]) + len(case.get("ginit", []))
+def _model_blocks(case, out):
+    """per op: (result, endpoint obs, predicted requests, predicted request texts)"""
+    n0 = len(VOCAB_LINES or vocab_lines()) + 1 + len(case["init"]) + len(case.get("ginit", []))
     body = out[n0:]
-    return [f"{body[i]} ; {body[i + 1]}" for i in range(0, len(body) - 1, 2)]
+    return [tuple(body[i:i + 4]) for i in range(0, len(body) - 3, 4)]
+
+
+def _blank_user_queries(op, sent):
+    """`query` ops send the caller's own text: the request is compared as `Q?` (the pre-read commit still counts)"""
+    if op[0] != "query" or sent == "-":
+        return sent
+    return " | ".join("Q?" if r.startswith("Q") else r for r in sent.split(" | "))
+
+
+def select_model_obs(case, out):
+    res = []
+    for op, (o, e, sent, _txt) in zip(case["ops"], _model_blocks(case, out)):
+        res.append(f"{o} ; {e} ; SENT {_blank_user_queries(op, sent)}")
+    return res
+
+
+def driver_session(case, captured):
+    """One run of the compiled Lean driver for this case: the model's predicted request texts (to be compared
+    with the captured texts here) and the Lean READER applied to every captured request text.
+    captured = per op a list of ("u", None, text) | ("q", graph-or-None, text).  Returns per op (decoded, texts)."""
+    import subprocess
+    exe = core.driver_path(sys.modules[__name__])
+    if not os.path.exists(exe):
+        return None
+    lines = model_lines(case)
+    n_model = len(lines)
+    for reqs in captured:
+        for kind, g, text in reqs:
+            if kind == "u":
+                lines.append(f"decode u {_cps(text)}")
+            else:
+                lines.append(f"decode q {'-' if g is None else _cps(g)} {_cps(text)}")
+    p = subprocess.run([exe], input="\n".join(lines) + "\n", stdout=subprocess.PIPE, stderr=subprocess.PIPE,
+                       text=True, timeout=60)
+    out = p.stdout.split("\n")
+    if p.returncode != 0 or len(out) < len(lines):
+        return None
+    blocks = _model_blocks(case, out[:n_model])
+    dec = out[n_model:]
+    res, j = [], 0
+    for reqs, blk in zip(captured, blocks):
+        d = dec[j:j + len(reqs)]
+        j += len(reqs)
+        res.append((d, blk[3]))
+    return res
 
 
 # ------------------------------------------------------------------ running the implementation
@@ -510,6 +601,7 @@ def run_impl(case):
              "autocommit": int(case["autocommit"]), "dirty": int(dirty), "hook": int(hook),
              "extra_params": int(bool(case.get("extra", 0) & 1)), "extra_headers": int(bool(case.get("extra", 0) & 2))}
     reached, answered = cfg == "ro", False
+    captured = []
 
     def bump(k, n=1):
         stats[k] = stats.get(k, 0) + n
@@ -691,6 +783,16 @@ def run_impl(case):
         KB, KN = _kq(B), _kn(N)
         obs.append(f"{out} ; " + _fmt_quads([(_tid(s), _tid(p), _tid(o), _gid(g)) for s, p, o, g in B])
                    + " | " + _fmt_names([_gid(n) for n in N]))
+        reqs = []
+        for ent in ep.log[n_log:]:
+            if "text" not in ent:
+                continue
+            if ent["path"] == "/update":
+                reqs.append(("u", None, ent["text"]))
+            else:
+                dg = ent.get("default-graph-uri", [])
+                reqs.append(("q", dg[0] if dg else None, ent["text"]))
+        captured.append(reqs)
         if any(_tid(x) == UNKNOWN for q in B for x in q[:3]) or any(_gid(q[3]) == UNKNOWN for q in B):
             viol.append(f"term: after op {k_i} the endpoint holds a term that is not one of the terms written: "
                         f"{[q for q in B if UNKNOWN in [_tid(x) for x in q[:3]] + [_gid(q[3])]][:2]!r}")
@@ -821,6 +923,30 @@ def run_impl(case):
                 viol.append(f"transport: op {k_i} query sent with several default-graph-uri {ent['default-graph-uri']}")
             if ent.get("error") and exc is None:
                 viol.append(f"transport: op {k_i} endpoint rejected a request ({ent['error'][:100]}) silently")
+
+    # ---- the text layer: every captured request text goes through the Lean READER (decoded operation =
+    #      what the model predicts, compared as part of obs), and where the model has a writer for it the
+    #      captured text must be character for character the text the Lean WRITER produces
+    sess = driver_session(case, captured)
+    for k_i, op in enumerate(case["ops"]):
+        if sess is None:
+            obs[k_i] += " ; SENT no-driver"
+            continue
+        dec, mtxt = sess[k_i]
+        reqs = captured[k_i]
+        if op[0] == "query":
+            dec = ["Q?" if kind == "q" else d for d, (kind, _g, _t) in zip(dec, reqs)]
+        sent = " | ".join(dec) if dec else "-"
+        mt = [] if mtxt == "none" else mtxt.split(" ")
+        # character-for-character comparison with the Lean writers: a statistic, NOT part of obs — another
+        # spelling that the reader decodes to the same operation is a harmless refactoring
+        if len(mt) == len(reqs):
+            for m, (kind, _g, text) in zip(mt, reqs):
+                if m != "-" and not (op[0] == "query" and kind == "q"):
+                    bump("texts_compared_with_lean_writer")
+                    bump("texts_identical_to_lean_writer", int(m == _cps(text)))
+        bump("requests_decoded", len(reqs))
+        obs[k_i] += f" ; SENT {sent}"
 
     return {"obs": obs, "viol": viol, "nontrivial": bool(reached and answered),
             "key": repr((cfg, case["method"], case["fmt"], case["autocommit"], case["dirty"], case["hook"],
